@@ -67,7 +67,9 @@ contract('gnpy.topology.spectrum_assignment.Bitmap.__init__', name='gnpy.topolog
          requires=[('grid', 'grid > 0'), ('ordered', 'f_min <= f_max')],
          ensures=[('extent', 'self.n_min == lo and self.n_max == hi'),
                   ('wf', 'WF(self)'), ('indices', 'WFI(self)'),
-                  ('all_free', 'forall(lambda k: self.bitmap[k] == BitmapValue.FREE, len(self.bitmap))')],
+                  ('all_free', 'forall(lambda k: self.bitmap[k] == BitmapValue.FREE, len(self.bitmap))'),
+                  ('guard_band_inside', 'implies(grid == 0.00625e12 and guardband >= 2 * grid and f_max - f_min >= guardband, '
+                                        'self.n_min < self.freq_index_min and self.freq_index_max <= self.n_max)')],
          modifies=['self.*'], use_at_calls=False)
 
 for _side in ('insert_left', 'insert_right'):
@@ -253,7 +255,16 @@ contract('gnpy.topology.spectrum_assignment.spectrum_selection', name='gnpy.topo
 # or both (sizes, extents and contents of the maps are unbounded).
 SPEC_AGG = SPEC_SEL2 + '''
 def SAME_EXTENT(a, b):
-    return a.n_min == b.n_min and a.n_max == b.n_max
+    return (a.n_min == b.n_min and a.n_max == b.n_max and a.freq_index_min == b.freq_index_min
+            and a.freq_index_max == b.freq_index_max)
+def CONSIST(b):
+    # guard indices as recomputed by aggregate_oms_bitmap from the map's own extent and guardband (true for band
+    # edges on the 6.25 GHz grid; off-grid edges can shift the recomputed guard index by one slot - not claimed)
+    return (b.freq_index_min == frequency_to_n(nvalue_to_frequency(b.n_min) + b.guardband)
+            and b.freq_index_max == frequency_to_n(nvalue_to_frequency(b.n_max) - b.guardband))
+def GB(b):
+    # guard band: the assignable indices lie strictly inside the map (established by Bitmap() for guardband >= 2 slots)
+    return b.n_min < b.freq_index_min and b.freq_index_max <= b.n_max
 '''
 _A, _B = 'oms_list[0].spectrum_bitmap', 'oms_list[1].spectrum_bitmap'
 _REQ2 = [('wf_a', f'WF({_A})'), ('wfi_a', f'WFI({_A})'), ('vals_a', f'VALS({_A}.bitmap)'),
@@ -265,10 +276,79 @@ for _po, _free in (([0], f'{_A}.bitmap[k] == BitmapValue.FREE'),
              name=f'gnpy.topology.spectrum_assignment.aggregate_oms_bitmap[path over OMS {_po}]', props=['C14'],
              params={'path_oms': const(_po), 'oms_list': lst(OMSB('a'), OMSB('b'))}, spec=SPEC_AGG,
              let={'r': 'result.spectrum_bitmap'},
-             requires=_REQ2,
+             requires=_REQ2 + [('guard_consistent', f'CONSIST({_A})')],
              ensures=[('wf', 'WF(r)'), ('indices', 'WFI(r)'), ('extent', f'SAME_EXTENT(r, {_A})'),
                       ('free_iff_free_on_every_oms_of_the_path',
                        f'forall(lambda k: iff(r.bitmap[k] == BitmapValue.FREE, {_free}), len(r.bitmap))'),
                       # the scratch map must not share its list with a real OMS (it is written by compute_n_m)
                       ('fresh_list_a', f'r.bitmap is not {_A}.bitmap'), ('fresh_list_b', f'r.bitmap is not {_B}.bitmap')],
              use_at_calls=False, modifies=[])
+
+# ---- ASSUMED (sorting of dicts by lambda keys with None/inf handling): for a one-entry request the order is trivial.
+# Checked natively, exhaustively on small inputs, in bounded/order_slots.py (the general permutation contract too).
+contract('gnpy.core.utils.order_slots', trusted=True, props=[],
+         params={'slots': lst(dct(N=opt(integer()), M=opt(integer())))},
+         ensures=[], returns=expr("([slots[0]['N']], [slots[0]['M']], [0])"),
+         note='ASSUMED for one-entry requests: order_slots([{N: n, M: m}]) == ([n], [m], [0]); bounded check')
+contract('gnpy.core.utils.restore_order', trusted=True, props=[],
+         params={'elements': lst(opt(integer())), 'order': lst(integer())},
+         ensures=[], returns=expr('[e for e in elements if e is not None]'),
+         note='ASSUMED for one-entry requests: restore_order([e], [0]) == [e] if e is not None else []; bounded check')
+
+RQ1 = obj('<ns>', N=lst(opt(integer())), M=lst(opt(integer())), request_id=string())
+for _po, _oms in (([0], [_A]), ([0, 1], [_A, _B])):
+    _freewin = [(f'window_free_on_oms_{k}', f'implies(len(result[0]) == 1, forall(lambda t: old({o}.bitmap)[t] == BitmapValue.FREE, n - m - {o}.n_min, n + m - {o}.n_min))')
+                for k, o in enumerate(_oms)]
+    contract('gnpy.topology.spectrum_assignment.compute_n_m',
+             name=f'gnpy.topology.spectrum_assignment.compute_n_m[one (N, M) entry, path over OMS {_po}]', props=['C14'],
+             params={'required_m': integer(), 'rq': RQ1, 'path_oms': const(_po), 'oms_list': lst(OMSB('a'), OMSB('b')),
+                     'per_channel_m': integer(), 'policy': const('first_fit')}, spec=SPEC_AGG,
+             let={'n': 'result[0][0]', 'm': 'result[1][0]', 'A': _A},
+             requires=_REQ2 + [('guard_a', f'GB({_A})'), ('guard_consistent', f'CONSIST({_A})'), ('pcm', 'per_channel_m > 0'), ('required', 'required_m > 0'),
+                               ('fixed_m_positive', 'implies(rq.M[0] is not None, rq.M[0] > 0)'),
+                               # a user-fixed N outside the map raises ValueError in Bitmap.geti (triaged separately, F11)
+                               ('fixed_n_on_grid', f'implies(rq.N[0] is not None, {_A}.n_min <= rq.N[0] and rq.N[0] <= {_A}.n_max)')],
+             ensures=[('shape', 'len(result[0]) == len(result[1]) and len(result[0]) <= 1'),
+                      ('blocked_means_nothing_selected', 'implies(len(result[0]) == 0, result[2] == required_m)'),
+                      ('remaining', 'implies(len(result[0]) == 1, result[2] == required_m - m and m > 0)'),
+                      ('fixed_n_verbatim', 'implies(len(result[0]) == 1 and rq.N[0] is not None, n == rq.N[0])'),
+                      ('fixed_m_verbatim', 'implies(len(result[0]) == 1 and rq.M[0] is not None, m == rq.M[0])'),
+                      ('window_inside_guard_bands', 'implies(len(result[0]) == 1, n - m >= A.freq_index_min and n + m - 1 <= A.freq_index_max)')] + _freewin,
+             # frame: NO map of oms_list may change (the function works on a scratch aggregate)
+             use_at_calls=False, modifies=[])
+
+RQP = obj('<ns>', N=lst(opt(integer())), M=lst(opt(integer())), request_id=string(), path_bandwidth=real(),
+          spacing=real(), bit_rate=real())
+for _po, _oms in (([0], [_A]), ([0, 1], [_A, _B])):
+    _pth = lst(*[obj('Fiber', oms_id=const(k), uid=string()) for k in _po])
+    _others = [o for o in (_A, _B) if o not in _oms]
+    contract('gnpy.topology.spectrum_assignment.pth_assign_spectrum',
+             name=f'gnpy.topology.spectrum_assignment.pth_assign_spectrum[one request, path over OMS {_po}]', props=['C14'],
+             params={'pths': lst(_pth), 'rqs': lst(RQP), 'oms_list': lst(OMSB('a'), OMSB('b')), 'rpths': lst(lst()),
+                     'policy': const('first_fit')}, spec=SPEC_AGG,
+             let={'rq': 'rqs[0]', 'A': _A, 'blocked': "hasattr(rqs[0], 'blocking_reason')"},
+             requires=_REQ2 + [('guard_a', f'GB({_A})'), ('guard_consistent', f'CONSIST({_A})'),
+                               ('demand', 'rqs[0].path_bandwidth > 0 and rqs[0].spacing > 0 and rqs[0].bit_rate > 0'),
+                               ('fixed_m_positive', 'implies(rqs[0].M[0] is not None, rqs[0].M[0] > 0)'),
+                               ('fixed_n_on_grid', f'implies(rqs[0].N[0] is not None, {_A}.n_min <= rqs[0].N[0] and rqs[0].N[0] <= {_A}.n_max)')],
+             ensures=[('blocked_has_no_labels', 'implies(blocked, rq.N is None and rq.M is None)'),
+                      ('accepted_has_one_label', 'implies(not blocked, len(rq.N) == 1 and len(rq.M) == 1 and rq.M[0] > 0)'),
+                      ('fixed_n_verbatim', 'implies(not blocked and old(rqs[0].N[0]) is not None, rq.N[0] == old(rqs[0].N[0]))'),
+                      ('fixed_m_verbatim', 'implies(not blocked and old(rqs[0].M[0]) is not None, rq.M[0] == old(rqs[0].M[0]))'),
+                      ('enough_slots', 'implies(not blocked, rq.M[0] * 0.0125e12 >= rq.spacing * (rq.path_bandwidth / rq.bit_rate))'),
+                      ('inside_guard_bands', 'implies(not blocked, rq.N[0] - rq.M[0] >= A.freq_index_min and rq.N[0] + rq.M[0] - 1 <= A.freq_index_max)')] +
+                     [(f'was_free_on_oms_{k}', f'implies(not blocked, forall(lambda t: old({o}.bitmap)[t] == BitmapValue.FREE, '
+                                               f'rq.N[0] - rq.M[0] - {o}.n_min, rq.N[0] + rq.M[0] - {o}.n_min))') for k, o in enumerate(_oms)] +
+                     # occupancy afterwards = occupancy before + exactly the accepted range, on every OMS of the path
+                     [(f'occupancy_is_old_plus_the_range_on_oms_{k}',
+                       f'implies(not blocked, forall(lambda t: {o}.bitmap[t] == (BitmapValue.OCCUPIED if INRANGE({o}, rq.N[0], rq.M[0], t) '
+                       f'else old({o}.bitmap)[t]), len({o}.bitmap)))') for k, o in enumerate(_oms)] +
+                     # a blocked request changes no spectrum state
+                     [(f'blocked_changes_nothing_on_oms_{k}',
+                       f'implies(blocked, forall(lambda t: {o}.bitmap[t] == old({o}.bitmap)[t], len({o}.bitmap)))') for k, o in enumerate(_oms)] +
+                     [(f'service_recorded_on_oms_{k}', f'implies(not blocked, len(oms_list[{k}].service_list) == len(old(oms_list[{k}].service_list)) + 1)')
+                      for k in _po],
+             modifies=['rqs[0].N', 'rqs[0].M', 'rqs[0].blocking_reason'] +
+                      [f'oms_list[{k}].spectrum_bitmap.bitmap[*]' for k in _po] +
+                      [f'oms_list[{k}].service_list[*]' for k in _po] + [f'oms_list[{k}].nb_channels' for k in _po],
+             use_at_calls=False, allow_other_exc=())
